@@ -319,6 +319,7 @@ Section Proofs.
     pose proof (shrink_good (fuel_of (maxit prm)) (init_state p0) (init_step t0) wf_init) as G1.
     destruct (shrink phi (fuel_of (maxit prm)) (init_state p0) (init_step t0)) as [s1 t1]; simpl in G1.
     assert (G1' : good s1 t1) by (apply G1; left; unfold fuel_of; lia).
+    destruct (src_ls_stale_guard_f (pv (cur s1))); [simpl in H; discriminate|].
     pose proof (grow_good (fuel_of (maxit prm)) s1 t1 G1') as G2.
     destruct (grow phi p0 (fuel_of (maxit prm)) s1 t1) as [go [s2 t2]]; simpl in G2.
     destruct go; [|simpl in H; discriminate].
@@ -379,17 +380,114 @@ Section Valid.
     apply cg_loop_valid. exact H.
   Qed.
 
+End Valid.
+
+(* ---------- a success never carries an invalid state (guard after the `*0.3` loop + every later update is checked) ---------- *)
+From LN Require Import C07_Statements.
+
+Section Stale.
+  Variable phi : Z -> float -> probe.
+  Variable prm : params.
+  Variable p0 : probe.
+  Local Notation update := (C07_Defs.update phi).
+
+  Lemma grow_keeps : forall fuel s t,
+    fst (grow phi p0 fuel s t) = true ->
+    pv (cur (fst (snd (grow phi p0 fuel s t)))) = true \/ fst (snd (grow phi p0 fuel s t)) = s.
+  Proof.
+    induction fuel as [|k IH]; intros s t G; cbn [grow] in *.
+    - right. reflexivity.
+    - destruct (abs (pf (cur s) - pf p0) <? eps1); [|right; reflexivity].
+      change (phi (cnt s) (t * 3)) with (cur (update s (t * 3))) in *.
+      destruct (pv (cur (update s (t * 3)))) eqn:V; [|simpl in G; discriminate].
+      left. destruct (IH _ _ G) as [H|H]; [exact H|]. rewrite H. exact V.
+  Qed.
+
+  Lemma zoom_valid : forall fuel s lo hi,
+    ok (zoom phi prm p0 fuel s lo hi) = true -> pv (cur (rs (zoom phi prm p0 fuel s lo hi))) = true.
+  Proof.
+    induction fuel as [|k IH]; intros s lo hi H; cbn [zoom] in *.
+    - simpl in H. discriminate.
+    - destruct (negb (eps0 <? abs (st_t lo - st_t hi))); [simpl in H; discriminate|].
+      match type of H with context [update s ?x] => set (t := x) in * end.
+      destruct (negb (pv (cur (update s t)))) eqn:V; [simpl in H; discriminate|].
+      apply negb_false_iff in V.
+      destruct (negb (armijo prm p0 (update s t) t) || (st_f lo <=? pf (cur (update s t)))); [apply IH; exact H|].
+      destruct (swolfe prm p0 (update s t)); [simpl; exact V|apply IH; exact H].
+  Qed.
+
+  Lemma lemarechal_keeps : forall fuel s t L R,
+    ok (lemarechal phi prm p0 fuel s t L R) = true ->
+    pv (cur (rs (lemarechal phi prm p0 fuel s t L R))) = true \/ rs (lemarechal phi prm p0 fuel s t L R) = s.
+  Proof.
+    induction fuel as [|k IH]; intros s t L R H; cbn [lemarechal] in *.
+    - simpl in H. discriminate.
+    - destruct (armijo prm p0 s t).
+      + destruct (wolfe prm p0 s); [right; reflexivity|].
+        match type of H with context [update s ?x] => set (t' := x) in * end.
+        destruct (pv (cur (update s t'))) eqn:V; [|simpl in H; discriminate].
+        left. destruct (IH _ _ _ _ H) as [E|E]; [exact E|]. rewrite E. exact V.
+      + match type of H with context [update s ?x] => set (t' := x) in * end.
+        destruct (pv (cur (update s t'))) eqn:V; [|simpl in H; discriminate].
+        left. destruct (IH _ _ _ _ H) as [E|E]; [exact E|]. rewrite E. exact V.
+  Qed.
+
+  Lemma fletcher_keeps : forall fuel s t prev curr,
+    ok (fletcher phi prm p0 fuel s t prev curr) = true ->
+    pv (cur (rs (fletcher phi prm p0 fuel s t prev curr))) = true \/ rs (fletcher phi prm p0 fuel s t prev curr) = s.
+  Proof.
+    induction fuel as [|k IH]; intros s t prev curr H; cbn [fletcher] in *.
+    - simpl in H. discriminate.
+    - destruct (negb (armijo prm p0 s t) || (st_f prev <=? st_f curr)); [left; apply zoom_valid; exact H|].
+      destruct (swolfe prm p0 s); [right; reflexivity|].
+      destruct (negb (has_descent (cur s))); [left; apply zoom_valid; exact H|].
+      match type of H with context [update s ?x] => set (t' := x) in * end.
+      destruct (negb (pv (cur (update s t')))) eqn:V; [simpl in H; discriminate|].
+      apply negb_false_iff in V.
+      left. destruct (IH _ _ _ _ H) as [E|E]; [exact E|]. rewrite E. exact V.
+  Qed.
+
+  Lemma morethuente_keeps : forall fuel s stp m,
+    ok (morethuente phi prm p0 fuel s stp m) = true ->
+    pv (cur (rs (morethuente phi prm p0 fuel s stp m))) = true \/ rs (morethuente phi prm p0 fuel s stp m) = s.
+  Proof.
+    induction fuel as [|k IH]; intros s stp m H; cbn [morethuente] in *.
+    - simpl in H. discriminate.
+    - destruct (mt_stop prm p0 (cur s) stp m); [right; reflexivity|].
+      destruct (mt_next prm p0 (cur s) stp m) as [stp' m'].
+      destruct (negb (pv (cur (update s stp')))) eqn:V; [simpl in H; discriminate|].
+      apply negb_false_iff in V.
+      left. destruct (IH _ _ _ H) as [E|E]; [exact E|]. rewrite E. exact V.
+  Qed.
+
+  Lemma do_get_keeps : forall a s t,
+    ok (do_get phi prm p0 a s t) = true ->
+    pv (cur (rs (do_get phi prm p0 a s t))) = true \/ rs (do_get phi prm p0 a s t) = s.
+  Proof.
+    intros a s t H. destruct a; cbn [do_get] in *.
+    - left. apply backtrack_valid. exact H.
+    - apply lemarechal_keeps. exact H.
+    - apply fletcher_keeps. exact H.
+    - apply morethuente_keeps. exact H.
+    - left. apply cgdescent_valid. exact H.
+  Qed.
+
+  Lemma stale_guard_spec : forall v, src_ls_stale_guard_f v = negb v.
+  Proof. reflexivity. Qed.
+
+  (* all five: a success never carries an invalid state *)
   Lemma ls_get_valid : forall a t0,
-    a = Backtrack \/ a = CGDescent ->
     ok (ls_get phi prm p0 a t0) = true -> pv (cur (rs (ls_get phi prm p0 a t0))) = true.
   Proof.
-    intros a t0 A H. unfold ls_get in *.
+    intros a t0 H. unfold ls_get in *.
     destruct (negb (has_descent p0)); [simpl in H; discriminate|].
     destruct (shrink phi (fuel_of (maxit prm)) (init_state p0) (init_step t0)) as [s1 t1].
-    destruct (grow phi p0 (fuel_of (maxit prm)) s1 t1) as [go [s2 t2]].
+    rewrite stale_guard_spec in *.
+    destruct (pv (cur s1)) eqn:V1; cbn [negb] in *; [|simpl in H; discriminate].
+    pose proof (grow_keeps (fuel_of (maxit prm)) s1 t1) as G.
+    destruct (grow phi p0 (fuel_of (maxit prm)) s1 t1) as [go [s2 t2]]; cbn [fst snd] in G.
     destruct go; [|simpl in H; discriminate].
-    destruct A as [A|A]; subst a; cbn [do_get] in *.
-    - apply backtrack_valid. exact H.
-    - apply cgdescent_valid. exact H.
+    assert (V2 : pv (cur s2) = true) by (destruct (G eq_refl) as [E|E]; [exact E|rewrite E; exact V1]).
+    destruct (do_get_keeps a s2 t2 H) as [E|E]; [exact E|rewrite E; exact V2].
   Qed.
-End Valid.
+End Stale.
